@@ -70,5 +70,11 @@ def gen(rng, tier):
         ops = [(0,), (1, 0, entries[0][0] if entries else 0, 5), (3, 0), (4, 0, 0, 1), (6, a0, 1, 7), (7, a0, 2), (9, a0, 4), (8,), (0,)]
         yield tab.line(ops)
 
+# re-initialisation of an edited table (appended by the generator below)
+_gen0 = gen
+def gen(rng, tier):
+    yield from _gen0(rng, tier)
+    yield from reinit_histories(rng, 400 if tier == 'thorough' else 60)
+
 def nontrivial(c):
     return True
